@@ -205,12 +205,12 @@ fn random_kind(r: &mut Rng, tier: Tier, index: u64) -> Kind {
             seam: r.chance(1, 3),
         },
         4 | 5 => Kind::Pulse { wire: r.usize(0, 255), bin: r.usize(0, 300), row: r.usize(0, 575), amp: *r.pick(&[80.0, 20.0, 300.0]) },
-        7 if r.chance(1, 2) => Kind::RealHits { run: *r.pick(&[11084u32, 11192, 12000, 9277, 10418, 7026]), pattern: r.below(8) as u8, n: *r.pick(&[1usize, 13, 40, 256]) },
-        6 | 7 => Kind::Hits { pattern: r.below(8) as u8, n: if tier == Tier::Thorough && r.chance(1, 20) { *r.pick(&[600usize, 1000, 2000]) } else { *r.pick(&[1usize, 2, 12, 13, 14, 30, 60, 256]) } },
+        7 if r.chance(1, 2) => Kind::RealHits { run: *r.pick(&[11084u32, 11192, 12000, 9277, 10418, 7026]), pattern: r.below(22) as u8, n: *r.pick(&[1usize, 13, 40, 256]) },
+        6 | 7 => Kind::Hits { pattern: r.below(23) as u8, n: if tier == Tier::Thorough && r.chance(1, 20) { *r.pick(&[600usize, 1000, 2000]) } else { *r.pick(&[1usize, 2, 12, 13, 14, 30, 60, 256]) } },
         8 => Kind::Random { n: r.usize(0, 12) },
         _ => Kind::EvFault {
             base: BaseEvent { run: *r.pick(&[u32::MAX, 11084, 9277, 0]), seed: r.next_u64(), n_wires: r.usize(1, 30), n_pad_msgs: r.usize(0, 3), long_only: r.chance(1, 2), pad_start: None, suppressed_only: false },
-            slot: r.usize(0, 33),
+            slot: r.usize(0, 34),
         },
     }
 }
@@ -502,13 +502,73 @@ fn kind_banks_hits(r: &mut Rng, pattern: u8, n: usize, run: Option<u32>) -> (u32
                     5 => Av { wire: (250 + k % 12) % 256, bin: (20 + 3 * k) % 290, z: z0 + 0.003 * k as f64, wire_amp: 80.0, pad_amp: 900.0 },
                     // two crossing lines
                     6 => Av { wire: (w0 + if k % 2 == 0 { (k / 2) % 256 } else { 256 - (k / 2) % 256 }) % 256, bin: (10 + 6 * (k / 2)) % 290, z: z0, wire_amp: 80.0, pad_amp: 900.0 },
+                    // adjacent wires in two consecutive time bins, one z: >= 13 points with only two
+                    // distinct drift radii
+                    8 => Av { wire: (w0 + k / 2) % 256, bin: 100 + k % 2, z: z0, wire_amp: 80.0, pad_amp: 900.0 },
+                    // the same along consecutive pad rows
+                    9 => Av { wire: (w0 + k / 2) % 256, bin: 60 + k % 2, z: z0 + 0.004 * (k / 2) as f64, wire_amp: 80.0, pad_amp: 900.0 },
+                    // two distinct points, each repeated
+                    10 => Av { wire: (w0 + 3 * (k % 2)) % 256, bin: 80 + 5 * (k % 2), z: z0 + 0.02 * (k % 2) as f64, wire_amp: 80.0, pad_amp: 900.0 },
+                    // adjacent wires, ONE time bin, consecutive pad rows (one radius, a helix of zero pitch)
+                    11 => Av { wire: (w0 + k) % 256, bin: 150, z: z0 + 0.004 * k as f64, wire_amp: 80.0, pad_amp: 900.0 },
+                    // ONE pad column: its 8 wires, each hit in two consecutive time bins, each wire on its
+                    // own pad row (two rows apart, so that every row is a local maximum): many space
+                    // points, two drift radii
+                    12 => {
+                        let i = (k / 2) % 8;
+                        Av { wire: 8 * (w0 / 8) + i, bin: 100 + k % 2, z: z0.clamp(-1.0, 0.9) + 0.008 * i as f64, wire_amp: 80.0 + i as f64, pad_amp: 900.0 + 10.0 * i as f64 }
+                    }
+                    // the same in a single time bin (one drift radius)
+                    13 => {
+                        let i = k % 8;
+                        Av { wire: 8 * (w0 / 8) + i, bin: 140, z: z0.clamp(-1.0, 0.9) + 0.008 * i as f64 + 0.1 * (k / 8) as f64, wire_amp: 80.0 + i as f64, pad_amp: 900.0 + 10.0 * i as f64 }
+                    }
+                    // every 4th wire (no mutual induction; two per pad column, on rows 3 apart), one time
+                    // bin: a ring segment of points with one and the same drift radius
+                    14 => Av { wire: (w0 + 4 * k) % 256, bin: 120, z: z0.clamp(-1.0, 1.0) + 0.012 * (k % 2) as f64, wire_amp: 80.0, pad_amp: 900.0 },
+                    // the same, alternating between two consecutive time bins (two radii)
+                    15 => Av { wire: (w0 + 4 * k) % 256, bin: 120 + (k / 2) % 2, z: z0.clamp(-1.0, 1.0) + 0.012 * (k % 2) as f64, wire_amp: 80.0, pad_amp: 900.0 },
+                    // one wire per pad column, late time bin (small radius, so that neighbours stay within
+                    // the clustering distance), one bin / two consecutive bins: exactly one / two radii
+                    16 => Av { wire: (w0 + 8 * k) % 256, bin: 212, z: z0, wire_amp: 80.0, pad_amp: 900.0 },
+                    17 => Av { wire: (w0 + 8 * k) % 256, bin: 212 + k % 2, z: z0, wire_amp: 80.0, pad_amp: 900.0 },
+                    // EXACT hits (no crosstalk, one pad per hit - see below): the 8 wires of one pad column,
+                    // each in two consecutive time bins and on its own pad row: 16 space points with two
+                    // drift radii; 19: one time bin
+                    18 | 19 => {
+                        let i = (k / 2) % 8;
+                        Av { wire: 8 * (w0 / 8) + i, bin: 212 + if *(&pattern) == 18 { k % 2 } else { 0 }, z: z0.clamp(-1.0, 0.9) + 0.008 * i as f64 + 0.1 * (k / 16) as f64, wire_amp: 400.0 + 40.0 * i as f64, pad_amp: 1500.0 + 60.0 * i as f64 }
+                    }
+                    // exact random cloud
+                    20 => Av { wire: r.usize(0, 255), bin: r.usize(0, 280), z: r.f64_range(-1.15, 1.15), wire_amp: r.f64_range(20.0, 300.0), pad_amp: r.f64_range(200.0, 2500.0) },
                     // random cloud
                     _ => Av { wire: r.usize(0, 255), bin: r.usize(0, 280), z: r.f64_range(-1.15, 1.15), wire_amp: r.f64_range(5.0, 300.0), pad_amp: r.f64_range(50.0, 2500.0) },
                 });
             }
-            let sig = fwd::signals_of(&avs, *r.pick(&[0.003, 0.005, 0.008]));
+            if pattern == 21 {
+                // isochronous hits in one pad column (see fwd::isochronous_column), n = scale knob
+                let sig = fwd::isochronous_column(w0 / 8, (((z0 + 1.152) / 0.004) as usize).min(550), 20 + (r.usize(0, 250)), *r.pick(&[1.0, 1.0, 0.5, 2.0]));
+                let run = run.unwrap_or(fwd::SIM_RUN);
+                return (run, fwd::banks_of_run(&sig, run, r.next_u32(), 0.0, r.next_u64(), 30000));
+            }
+            let exact = (18..=20).contains(&pattern);
+            let sigma = *r.pick(&[0.003, 0.005, 0.008]);
+            let sig = if exact { fwd::signals_of_opts(&avs, 0.003, true) } else { fwd::signals_of(&avs, sigma) };
             let run = run.unwrap_or(fwd::SIM_RUN);
-            (run, fwd::banks_of_run(&sig, run, r.next_u32(), *r.pick(&[0.0, 0.0, 3.0, 30.0]), r.next_u64(), 30000))
+            let mut sig = sig;
+            if exact {
+                // the read-out window closes right after the last hit (no long tail whose rounding
+                // errors the deconvolution would turn into further small hits)
+                let last = avs.iter().map(|a| a.bin).max().unwrap_or(0);
+                for v in sig.wires.values_mut() {
+                    v.truncate(last + 4);
+                }
+                for v in sig.pads.values_mut() {
+                    v.truncate((last + 11).min(fwd::N_PAD_BINS));
+                }
+            }
+            let noise = *r.pick(&[0.0, 0.0, 3.0, 30.0]);
+            (run, fwd::banks_of_run(&sig, run, r.next_u32(), if exact { 0.0 } else { noise }, r.next_u64(), 30000))
 }
 
 pub fn kind_name(k: &Kind) -> &'static str {
